@@ -143,6 +143,17 @@ def make_bodies(tier, max_full):
                     bad = bytearray(data)
                     bad[c] ^= x
                     add('%s/flip%d^%02x' % (name, c, x), DEC_OF[fmt], fmt, bad, None, 'corrupt')
+    # zlib streams written with a smaller window (header bytes 18xx .. 68xx instead of 78xx)
+    for wb in ((9, 12) if quick else (9, 10, 11, 12, 13, 14)):
+        for p in payloads[:2] + [b'hello hello hello']:
+            c = zlib.compressobj(6, zlib.DEFLATED, wb)
+            data = c.compress(p) + c.flush()
+            add('zlib-w%d/%s' % (wb, p.hex()), 'deflate', 'zlib', data, p, 'intact')
+    # several gzip members one after the other: the decoder (like zlib's one-shot call) stops after the first one -
+    # for every split the same
+    m3 = compress(b'one', 6, 'gzip') + compress(b'two', 6, 'gzip') + compress(b'three', 6, 'gzip')
+    add('gzip-3members', 'gzip', 'gzip', m3, b'one', 'members')
+    add('gzip-2members', 'gzip', 'gzip', compress(b'a', 0, 'gzip') + compress(b'b', 0, 'gzip'), b'a', 'members')
     for z in ZLIBISH:
         add('zlibish/%s' % z.hex(), 'deflate', 'raw', z, b'A', 'zlibish')
         for t in range(1, len(z)):
